@@ -378,6 +378,19 @@ def stepBsi (st : St) (cmd : List String) (got : String) : Option (St × Verdict
           some (putB st t b, expect (mdig b.vals ++ " " ++ mdig b.vals ++ " ok") (beforeBar got))
         else fin none
       | none => fin none
+  -- the same two loaders with a previously used index `u` as the receiver (consumed: the name `u` disappears)
+  | ["bmarsh", t, s, u] => fin do
+      let b ← st.bsi[s]?
+      let o ← st.bsi[u]?
+      guard (o.is64 == b.is64 && s != u)
+      pure (putB { st with bsi := st.bsi.erase u } t b, mdig b.vals ++ " " ++ mdig b.vals)
+  | ["bstream", t, s, u] =>
+      match st.bsi[s]?, st.bsi[u]? with
+      | some b, some o =>
+        if b.is64 && o.is64 && s != u then
+          some (putB { st with bsi := st.bsi.erase u } t b, expect (mdig b.vals ++ " " ++ mdig b.vals ++ " ok") (beforeBar got))
+        else fin none
+      | _, _ => fin none
   | ["bequals", s, t] => fin do
       let b ← st.bsi[s]?
       let o ← st.bsi[t]?
